@@ -16,6 +16,11 @@ mod c02;
 mod c11;
 mod c12;
 mod c19;
+mod c16;
+mod c03;
+mod c01;
+mod c20;
+mod c15;
 // MODULES-END
 
 fn dump_file(path: &str) -> String {
@@ -56,6 +61,11 @@ fn main() {
         || c11::dispatch(op, &rest)
         || c12::dispatch(op, &rest)
         || c19::dispatch(op, &rest)
+        || c16::dispatch(op, &rest)
+        || c03::dispatch(op, &rest)
+        || c01::dispatch(op, &rest)
+        || c20::dispatch(op, &rest)
+        || c15::dispatch(op, &rest)
         // DISPATCH-END
         ;
     if !handled {
